@@ -53,11 +53,13 @@ def FieldD.mapValueField (f : FieldD) : FieldD :=
 
 /-- gogo `GoMapType(...).GoType` -/
 def gogoMapGoType (f : FieldD) : String :=
-  -- the alias field carries the map field's options (nullable)
-  let alias : FieldD := { f.mapValueField with nullable := f.nullable }
+  -- the alias field carries the map field's options (nullable, stdtime, stdduration)
+  let alias : FieldD := { f.mapValueField with nullable := f.nullable, stdTime := f.stdTime, stdDuration := f.stdDuration }
   let vt := gogoGoType alias
+  -- values of message type (also Timestamp / Duration, std or not) keep their star unless nullable = false
   let vt' :=
-    if f.type == "message" then (if alias.isNullableOpt then vt else String.ofList (dropStar vt.toList))
+    if f.type == "message" || f.type == "timestamp" || f.type == "duration" then
+      (if alias.isNullableOpt then vt else String.ofList (dropStar vt.toList))
     else String.ofList (dropStar vt.toList)
   "map[" ++ scalarGoType f.mapKey ++ "]" ++ vt'
 
